@@ -173,6 +173,10 @@ def d_unit_and_monitor(ctx, n):
             ctx.violation(dict(kind="search-raises", exception=r["exc"][0], optimizer=spec["name"]),
                           dict(spec=dunit.spec_full(spec)), "search() with early_stopping raised %s: %s" % r["exc"][:2])
             continue
+        hm = dunit.history_mismatch(r["obs"][-1])
+        if hm:
+            ctx.violation(dict(kind="history-mismatch", optimizer=spec["name"]), dict(spec=dunit.spec_full(spec)), "%s: %s" % (spec["name"], hm))
+            continue
         if len(spec["calls"]) > 1:
             # continued search: the rule is applied to the lifetime history (the earlier call's scores included)
             n0 = len(r["obs"][0]["score_l"])
